@@ -41,16 +41,50 @@ Theorem C09_rx : forall c conn0 ops,
 Proof. intros. apply (Inv_exec c ops _ (Inv_init c conn0)). Qed.
 Print Assumptions C09_rx.
 
-(* Wire log: the tx records concatenate to exactly the bytes sent, the rx records to
-   exactly the bytes received (empty when that direction is not logged), and no
-   record is empty. *)
+(* Wire log attached with a fixed configuration (no close/reopen of the log during the
+   history): the tx records concatenate to exactly the bytes sent, the rx records to
+   exactly the bytes received (empty when that direction is not logged). *)
 Theorem C09_wirelog : forall c conn0 ops,
+  no_wl ops = true ->
   let s := exec c (init conn0) ops in
   log_of DTx (wlog s) = (if wl_tx c then k_sent s else []) /\
-  log_of DRx (wlog s) = (if wl_rx c then k_recvd s else []) /\
-  Forall (fun r => snd r <> []) (wlog s).
-Proof. intros. apply (Inv_exec c ops _ (Inv_init c conn0)). Qed.
+  log_of DRx (wlog s) = (if wl_rx c then k_recvd s else []).
+Proof.
+  intros c conn0 ops H s.
+  destruct (Inv_exec c ops _ (Inv_init c conn0)) as (_ & T & R & _ & E). fold s in T, R, E.
+  assert (N : wl_now s = None) by (unfold s; now rewrite (no_wl_static c ops _ H)).
+  destruct (E N) as [E1 E2]. rewrite T, R. auto.
+Qed.
 Print Assumptions C09_wirelog.
+
+(* Wire log reconfigured or closed while attached (WlSet ops anywhere in the history [pre]):
+   over any continuation without reconfiguration, the log of a direction that is disabled
+   receives nothing and the log of an enabled direction grows by exactly the bytes the
+   kernel moved in that direction, in order.  No record is ever empty. *)
+Theorem C09_wirelog_reconfigured : forall c conn0 pre ops,
+  no_wl ops = true ->
+  let s := exec c (init conn0) pre in
+  let s' := exec c s ops in
+  exists ds dr,
+    k_sent s' = k_sent s ++ ds /\ k_recvd s' = k_recvd s ++ dr /\
+    log_of DTx (wlog s') = log_of DTx (wlog s) ++ (if log_on c s DTx then ds else []) /\
+    log_of DRx (wlog s') = log_of DRx (wlog s) ++ (if log_on c s DRx then dr else []).
+Proof. exact wirelog_segment. Qed.
+Print Assumptions C09_wirelog_reconfigured.
+
+Theorem C09_wirelog_no_empty_record : forall c conn0 ops,
+  Forall (fun r => snd r <> []) (wlog (exec c (init conn0) ops)).
+Proof. intros. apply (Inv_exec c ops _ (Inv_init c conn0)). Qed.
+Print Assumptions C09_wirelog_no_empty_record.
+
+Example C09_wirelog_reconfigured_example :
+  let c := {| kd := KRemoter; wl_tx := true; wl_rx := true |} in
+  let pre := [Tx [1;2;3;4;5;6]%N; SvcSends (SAccept 2); WlSet false true] in
+  let ops := [SvcSends (SAccept 3); SvcRecvs [RData [9]%N]] in
+  no_wl ops = true /\ log_on c (exec c (init true) pre) DTx = false /\
+  wlog (exec c (init true) (pre ++ ops ++ [WlSet true true; SvcSends (SAccept 1)]))
+    = [(DTx, [1;2]); (DRx, [9]); (DTx, [6])]%N.
+Proof. vm_compute. repeat split. Qed.
 
 (* A would-block (or raising) answer, and a zero-byte accept, leave the connection
    exactly as it was: the attempt can simply be repeated. *)
